@@ -183,3 +183,18 @@ Print Assumptions C08_catch_pops_outer_refuted_old.
 Print Assumptions C08_break_in_try_refuted_old.
 Print Assumptions C08_native_site_needs_flag_refuted.
 Print Assumptions C08_handler_static_dynamic.
+
+(* ======================================================================================================== *)
+(* R2G block (added; see notes/R2G.md): ExcHandler::has_catch_block, TRANSLATED from the current object.rs into
+   gen/PureHandlers.v by translator/rust2gallina.py on every run, equals the convention of the hand-written model
+   (Handlers.he_after: true iff the two offsets coincide, i.e. iff there is NO catch clause).  A change of the Rust
+   function changes the generated text and breaks THIS named statement. *)
+From Coq Require ZArith.
+From YVGen Require PureHandlers.
+From YV Require PureEquivHandlers.
+Theorem C08_gen_has_catch_block_eq_model : forall h : handler,
+  PureHandlers.ExcHandler_has_catch_block (BinInt.Z.of_nat (h_catch h)) (BinInt.Z.of_nat (h_fin h)) =
+  Nat.eqb (h_catch h) (h_fin h).
+Proof. exact PureEquivHandlers.gen_has_catch_block_eq_model. Qed.
+Print Assumptions C08_gen_has_catch_block_eq_model.
+(* ================================================ end of the R2G block ================================= *)
